@@ -1109,7 +1109,7 @@ class Engine:
                 return VConst(f"{v.py}.{attr}", "builtin")
             if v.what == "ext":
                 return VConst(f"{v.py}.{attr}", "ext")
-            if v.what in ("aescipher", "hashobj"):
+            if v.what in ("aescipher", "hashobj", "pkcs1cipher"):
                 return VConst((v, attr), "boundmethod")
             if v.what == "class":
                 modname, cname = v.py.split(":")
